@@ -137,7 +137,7 @@ main(int argc, char **argv)
   /* --submap: if nec, map <msafile1> to a subset of it's own columns in <msafile2>  */
   else { /* --submap was enabled */
     if ((subfp = fopen(esl_opt_GetString(go, "--submap"), "w")) == NULL) 
-      ESL_FAIL(eslFAIL, errbuf, "Failed to open --submap output file %s\n", esl_opt_GetString(go, "--submap"));
+      esl_fatal("Failed to open --submap output file %s\n", esl_opt_GetString(go, "--submap")); /* ESL_FAIL would return 1 from main() silently */
     if((status = map_sub_msas(go, errbuf, msa1, msa2, &sub_msa1_to_msa2_mask)) != eslOK) goto ERROR;
     fprintf(subfp, "%s\n", sub_msa1_to_msa2_mask);
     fclose(subfp);
@@ -218,6 +218,7 @@ map_msas(const ESL_GETOPTS *go, char *errbuf, ESL_MSA *msa1, ESL_MSA *msa2, int 
   /* contract check */
   if(! (msa1->flags & eslMSA_DIGITAL)) ESL_FAIL(eslEINVAL, errbuf, "in map_msas() msa1 (%s) not digitized.\n", esl_opt_GetArg(go, 1));
   if(! (msa2->flags & eslMSA_DIGITAL)) ESL_FAIL(eslEINVAL, errbuf, "in map_msas() msa2 (%s) not digitized.\n", esl_opt_GetArg(go, 2));
+  if(msa1->nseq != msa2->nseq) ESL_FAIL(eslEINVAL, errbuf, "in map_msas() msa1 has %d sequences, msa2 has %d sequences\n", msa1->nseq, msa2->nseq);
   alen1 = msa1->alen;
   alen2 = msa2->alen;
   
